@@ -327,6 +327,35 @@ def c17(ctx):
                 wrong = sorted(n for n in names if pairs.get(n) != want[n])
                 ctx.violation('spec', f'gemato hash -H "{" ".join(names)}" (exit {rc}): size field {f[2:3]}, wrong or missing digests for {wrong}',
                               {'hashes': names, 'output': out.getvalue()[:600]})
+        # ... several operands in one invocation: one line per operand, each with all the digests of its own content
+        ops = []
+        for j, ln in enumerate([0, 1, 70001, 300]):
+            q = os.path.join(td, 'op%d' % j)
+            open(q, 'wb').write(big[j:j + ln])
+            ops.append((q, big[j:j + ln]))
+        for names in (['SHA512', 'BLAKE2B'], ['SHA1'], ['SHA256', 'MD5', 'SHA1']):
+            for sel in ([0, 1], [2, 3, 1], [3, 2, 1, 0], [1, 1]):
+                out = io.StringIO()
+                k += 1
+                try:
+                    with contextlib.redirect_stdout(out):
+                        rc = gemato.cli.main(['gemato', 'hash', '-H', ' '.join(names)] + [ops[x][0] for x in sel])
+                except BaseException as e:
+                    rc = 'exception:' + type(e).__name__
+                lines = out.getvalue().splitlines()
+                bad = None
+                if rc not in (0, None) or len(lines) != len(sel):
+                    bad = f'exit {rc}, {len(lines)} lines for {len(sel)} operands'
+                else:
+                    for x, line in zip(sel, lines):
+                        f = line.split()
+                        want = {n: ref_digest(libname[n], ops[x][1]) for n in names}
+                        if f[:1] != ['DATA'] or f[2:3] != [str(len(ops[x][1]))] or dict(zip(f[3::2], f[4::2])) != want:
+                            bad = f'operand no. {sel.index(x) + 1} ({len(ops[x][1])} bytes): {line[:120]!r}'
+                            break
+                if bad:
+                    ctx.violation('spec', f'gemato hash -H "{" ".join(names)}" with {len(sel)} operands: {bad}', {'hashes': names, 'operand_sizes': [len(ops[x][1]) for x in sel],
+                                                                                                             'output': out.getvalue()[:800]})
         # coreutils as an independent reference
         p = os.path.join(td, 'g')
         open(p, 'wb').write(big[:70001])
